@@ -17,7 +17,7 @@ FrTypes == TypedTypes \cup {10, 99}
 
 Init == /\ t \in FrTypes
         /\ \/ delta \in Deltas /\ mode \in {"len-only", "resized"}
-           \/ delta = 0 /\ mode \in {"count+1", "count-1", "exact"}
+           \/ delta = 0 /\ mode \in {"count+1", "count-1", "exact", "empty", "empty-cut"}
 Next == UNCHANGED vars
 Spec == Init /\ [][Next]_vars
 
@@ -36,6 +36,10 @@ First ==
   CASE mode = "len-only" -> RRHead(Len(NatRd) + delta) \o NatRd          \* length field lies, bytes unchanged
     [] mode = "resized" /\ delta > 0 -> RRHead(Len(NatRd) + delta) \o NatRd \o Pad(delta)
     [] mode = "resized" /\ delta < 0 -> RRHead(Len(NatRd) + delta) \o SubSeq(NatRd, 1, Len(NatRd) + delta)
+    \* RDLENGTH 0 (a record without RDATA, as in RFC 2136 prerequisites): the next entry starts right after it
+    [] mode = "empty" -> RRHead(0)
+    \* RDLENGTH 0 although the typed content follows: the content is then (mis)read as the next entry
+    [] mode = "empty-cut" -> RRHead(0) \o NatRd
     [] OTHER -> RRHead(Len(NatRd)) \o NatRd
 
 AnCount == CASE mode = "count+1" -> 4 [] mode = "count-1" -> 2 [] OTHER -> 3
@@ -43,6 +47,7 @@ Usable == Len(NatRd) + delta >= 0
 Msg == HdrEncode(9, {"qr"}, 0, 0, 0, AnCount, 0, 0) \o First \o Sentinel(1) \o Sentinel(2)
 
 \* sanity of the generator itself: the exact variant decodes to three records
+EmptyOK == (mode = "empty" /\ t # 41) => LET d == RefDecode(Msg) IN d.ok /\ d.exact /\ Len(d.pkt.an) = 3 /\ d.end = Len(Msg)
 ExactOK == (mode = "exact") => LET d == RefDecode(Msg) IN d.ok /\ d.exact /\ Len(d.pkt.an) = 3 /\ d.end = Len(Msg)
 
 Emit == Usable => PrintT(<<"CASE", ToJson([msg |-> Msg, t |-> t, delta |-> delta, mode |-> mode])>>)
